@@ -293,7 +293,7 @@ def step (c : Ctx) (line : String) : Ctx × String :=
         | .error e => (c, "e " ++ e.toString)
   | ["fflush"] =>
     let s := c.fstate
-    (c.setFState ⟨s.tabs.map fun p => (p.1, flushTable (c.props.contains p.1) p.2)⟩, "ok")
+    (c.setFState ⟨s.tabs.map fun p => (p.1, flushTable p.2)⟩, "ok")
   | ["fworld", id, w] =>
     match id.toNat?, parseB w with
     | some i, some w =>
@@ -303,7 +303,7 @@ def step (c : Ctx) (line : String) : Ctx × String :=
         let n := { p.2 with world := w }
         let s := c.fstate
         let c' := { c with fnodes := c.fnodes.map fun (q : Nat × FNode Nat Q) => if q.1 == i then (i, n) else q }
-        (c'.setFState (s.set i (resetWorldTable (c.props.contains i) w (s.get i))), "ok")
+        (c'.setFState (s.set i (resetWorldTable w (s.get i))), "ok")
     | _, _ => bad
   | ["fstate", id, g] =>
     match id.toNat?, parseGr g with
